@@ -340,7 +340,9 @@ type xAVP struct {
 	Must     string `xml:"must,attr"`
 	VendorID uint32 `xml:"vendor-id,attr"`
 	Data     struct {
-		TypeName string `xml:"type,attr"`
+		TypeName string     `xml:"type,attr"`
+		Item     []struct{} `xml:"item"`
+		Rule     []struct{} `xml:"rule"`
 	} `xml:"data"`
 }
 
@@ -1045,7 +1047,7 @@ func emitDict() {
 		})
 	}
 	e.f("/-- XML variables loaded by `dict.init()`, in order (interned) -/\ndef dictLoadOrder : List Nat := %s\n", natList(mapInts(order, intern)))
-	e.f("/-- one `<avp>`: (name, code, vendor-id, must contains \"M\", type name) -/\nabbrev AvpRow := Nat × Nat × Nat × Bool × Nat\n")
+	e.f("/-- one `<avp>`: (name, code, vendor-id, must contains \"M\", type name, number of item / rule children) -/\nabbrev AvpRow := Nat × Nat × Nat × Bool × Nat × Nat\n")
 	e.f("/-- one `<command>`: (code, short, #request rules, #answer rules) -/\nabbrev CmdRow := Nat × Nat × Nat × Nat\n")
 	e.f("/-- one `<application>`: (id, type, vendor ids, commands, avps) -/\nabbrev AppRow := Nat × Nat × List Nat × List CmdRow × List AvpRow\n")
 	var fileDefs []string
@@ -1074,7 +1076,7 @@ func emitDict() {
 				}
 				var rows []string
 				for _, a := range app.AVP[c*200 : hi] {
-					rows = append(rows, fmt.Sprintf("(%d, %d, %d, %v, %d)", intern(a.Name), a.Code, a.VendorID, strings.Contains(a.Must, "M"), intern(a.Data.TypeName)))
+					rows = append(rows, fmt.Sprintf("(%d, %d, %d, %v, %d, %d)", intern(a.Name), a.Code, a.VendorID, strings.Contains(a.Must, "M"), intern(a.Data.TypeName), len(a.Data.Item)+len(a.Data.Rule)))
 				}
 				nm := fmt.Sprintf("dictFile%dApp%dAvps%d", fi, ai, c)
 				e.f("def %s : List AvpRow := [%s]\n", nm, strings.Join(rows, ",\n  "))
